@@ -1,4 +1,5 @@
-\* Generator: all component digraphs on {a,b,c}, <= 2 components per glyph, x contour subsets (17 576 cases).
+\* Generator: all component digraphs on {a,b,c}, <= 2 components per glyph, x contour subsets (17 576 cases), plus all pairs
+\* of per-master graphs with <= 1 component per glyph for a two-master source (4 096 cases).
 SPECIFICATION GenSpec
 INVARIANT Emit
 CHECK_DEADLOCK FALSE
